@@ -200,6 +200,29 @@ mod imp {
             let mut noncallable_called = false;
             for _ in 0..nstmts {
                 if noncallable_called { break; }
+                // the staleness pattern itself: a body site is warmed, its callee's binding changes, the site runs again
+                if self.rng.chance(1, 8) && !self.leafs.is_empty() && (self.mids.len() < 3 || !self.vs.is_empty()) {
+                    let v = if !self.vs.is_empty() && self.rng.chance(2, 3) { let l = self.vs.clone(); self.pick(&l) }
+                            else if self.vs.len() < 3 { let name = format!("v{}", self.vs.len()); let rhs = self.leaf_rhs(false);
+                                   self.vs.push(name.clone()); out.push(Stmt::LetMut { name: name.clone(), rhs }); name }
+                            else { let l = self.vs.clone(); self.pick(&l) };
+                    if frozen.contains(&v) { continue; }
+                    let m = if self.mids.len() < 3 { format!("m{}", self.mids.len()) } else { let l = self.mids.clone(); self.pick(&l) };
+                    if !defd.contains(&m) && (allow_redef || !self.mids.contains(&m)) {
+                        if !self.mids.contains(&m) { self.mids.push(m.clone()); }
+                        defd.insert(m.clone());
+                        let tag = self.fresh_tag();
+                        let mut body = vec![v.clone()];
+                        if self.rng.chance(1, 2) { let l = self.leafs.clone(); body.push(self.pick(&l)); }
+                        out.push(Stmt::DefFn { name: m.clone(), tag, body });
+                    }
+                    out.push(Stmt::Call { name: m.clone() });
+                    let rhs = self.leaf_rhs(true);
+                    if matches!(rhs, Rhs::Closure(_)) { frozen.insert(v.clone()); }
+                    out.push(Stmt::Assign { name: v.clone(), rhs });
+                    out.push(Stmt::Call { name: m });
+                    continue;
+                }
                 let r = self.rng.below(100);
                 if r < 12 || self.leafs.is_empty() {
                     // leaf definition (new or, across inputs, redefinition)
